@@ -44,6 +44,11 @@ CHECKS = {
         technique="breadth-first explicit-state exploration of operation sequences on real Food objects (exact canonical state, deduplicated) with a reference value type run in lock-step; full product of constructor argument kinds; full product of predicate operands under the four inclusion-flag settings",
         text="All operation sequences up to depth 1 (all seeds) / 2 (8 seeds) quick, depth 2 complete + depth-3 unary chains thorough, over 22 unary and 5 binary operations with every reached state as partner; after every step labels, label list, form-vs-shape, values, operand immutability and must-refuse are checked against the reference. 16 predicates are compared between single values and one-month series for every operand pair over a 3/4-value menu under all four fat/protein settings.",
         note=TRUST + "; label conventions are those of the Food class docstring; operations the docstrings declare unsupported may refuse"),
+    "C13": dict(
+        engine="options", design_ref="3/C13",
+        technique="explicit-state exploration of the exactly-once flag machine on a real Scenarios object (every reachable flag set x every setter, found by introspection) + deviation-bounded (k<=1) enumeration of the option dispatcher against a reference table + differential check of every head-count override at the herd builder",
+        text="(i) from 2 country presets x 6-16 countries and 2 global presets, every family x every documented value, an unknown value and the key missing: accepted iff documented, caller's dictionary untouched, constants equal the reference table written from README/docstrings, numeric overrides change exactly the named constant; (ii) quick: every ordered pair of the 60 setters from each scale root, thorough: all 2^15 flag sets x 60 setters from both roots (3.9M transitions): accepted iff family unset and scale fits, exactly its flag is set, a rejection changes nothing; (iii) every species head override x countries observed at the table reaching the herd builder.",
+        note=TRUST + "; reference table of option values in mc/props/c13.py (EXPECT) transcribed from scenarios/README.md and setter docstrings"),
 }
 
 NOT_YET = "check not built yet in this session (planned in DESIGN.md section 3); not claimed until its machinery exists"
@@ -88,6 +93,7 @@ def main():
              "kind_free_text": "enumeration of configurations through compute_parameters_first_round and of generated constants through the supply classes, reference model in lock-step"},
             {"name": "units", "path": "mc/props/c10.py", "serves_properties": ["C10"], "kind_free_text": "exhaustive product over unit triples on Food.in_units"},
             {"name": "food-ops", "path": "mc/props/c11.py", "serves_properties": ["C11"], "kind_free_text": "BFS over operation sequences on real Food objects with exact state hashing and a reference value type"},
+            {"name": "options", "path": "mc/props/c13.py", "serves_properties": ["C13"], "kind_free_text": "explicit-state search over the exactly-once flag sets of a real Scenarios object; dispatcher deviations against a reference table"},
         ],
         "checks": checks,
         "not_applicable": na,
